@@ -84,7 +84,7 @@ DEFAULT_FIELDS = {
 
 @st.composite
 def table(draw, min_rows=1, max_rows=12, fields=None, permute=True, unique_ids=True, bulk_max=0,
-          id_strategy=None, euler_strategy=None):
+          id_strategy=None, euler_strategy=None, index_kinds=("default", "default", "reversed", "offset", "strided", "rotated")):
     """A particle table as data: {"cols": column order, "rows": [[20 values canonical order]], "bulk": {...}|None}."""
     f = dict(DEFAULT_FIELDS)
     if fields:
@@ -121,7 +121,10 @@ def table(draw, min_rows=1, max_rows=12, fields=None, permute=True, unique_ids=T
     bulk = None
     if bulk_max and draw(st.integers(0, 3)) == 0:
         bulk = {"seed": draw(st.integers(0, 2**31 - 1)), "n": draw(st.integers(1, bulk_max))}
-    return {"cols": list(cols), "rows": rows, "bulk": bulk}
+    index = "default"
+    if index_kinds:
+        index = draw(st.sampled_from(index_kinds))
+    return {"cols": list(cols), "rows": rows, "bulk": bulk, "index": index}
 
 
 def default_bulk(rng, n, first_id):
@@ -160,6 +163,16 @@ def table_df(t, bulk_fn=default_bulk):
 
     a = table_array(t, bulk_fn)
     df = pd.DataFrame(a, columns=MOTL_COLUMNS)
+    n = len(df)
+    kind = t.get("index", "default")
+    if kind == "reversed":  # labels n-1..0: label order differs from row order
+        df.index = list(range(n - 1, -1, -1))
+    elif kind == "offset":  # labels beyond the row count (as left behind by filtering a larger table)
+        df.index = list(range(n + 3, 2 * n + 3))
+    elif kind == "strided":
+        df.index = list(range(0, 3 * n, 3))
+    elif kind == "rotated":
+        df.index = [(i + 1) % n for i in range(n)] if n else []
     return df[list(t["cols"])].copy()
 
 
